@@ -104,6 +104,14 @@ def sock_cases(tier, rnd):
             ops = [["net", "refuse", 0.0]] * chain + \
                   [["send", "quick_timer", pol, "inline"], ["adv", 2.0 * chain + 3.0]]
             out.append(ops)
+    # --- the dead link shows up on the receive side (reset / time-out / no route) and a
+    #     command is submitted in the same instant, before the client has dealt with it: the
+    #     write attempt fails with that very error
+    for pol in ("idem", "long", "nonidem"):
+        for kind in (None, "timeout", "oserror"):
+            for turns in (0, 1):
+                out.append([["q"], ["rst", kind], ["turns", turns],
+                            ["send", "zone_ctrl", pol, "inline"], ["adv", 3.0]])
     # --- the link returns before the expiry, but a connection subscriber is still busy with
     #     connected=True when the lifetime ends: nothing may be written at or after the expiry
     for pol, (r, L) in pols.items():
@@ -182,6 +190,14 @@ def check_sock(gen, run):
         v("socket-scenario-hang", status=run.status)
         return viol, obs
     opens = [(seq, t, d["conn"]) for seq, t, k, d in log.events if k == "NET.open"]
+    import builtins
+    for r in run.sends:
+        exc_t = getattr(builtins, str(r["outcome"]), None)
+        if isinstance(exc_t, type) and issubclass(exc_t, OSError):
+            # a link error is the retry discipline's business: it never surfaces from send()
+            # (where the message, already taken off the queue, would simply be gone)
+            v("link-error-surfaces-from-send", serial=r["serial"], outcome=r["outcome"],
+              policy=r["policy"])
     for r in run.sends:
         if r["data"] is None or "call_seq" not in r or r["outcome"] not in ("ok", "pending"):
             continue
